@@ -439,7 +439,11 @@ def main(run):
         d = [int(D[i, i]) for i in range(3)]
         okk = ((P.dot(A).dot(Q) == D).all() and all(D[i, j] == 0 for i in range(3) for j in range(3) if i != j)
                and fdet(P.tolist()) == 1 and abs(fdet(Q.tolist())) == 1 and all(x > 0 for x in d)
-               and d[1] % d[0] == 0 and d[2] % d[1] == 0 and d[0] * d[1] * d[2] == abs(fdet(A.tolist())))
+               and d[0] * d[1] * d[2] == abs(fdet(A.tolist())))
+        chain = all(x > 0 for x in d) and d[1] % d[0] == 0 and d[2] % d[1] == 0
+        meta[-1] = ("snf", m, (s.D, s.P, s.Q, chain))
+        # the textbook chain d0|d1|d2 is not promised by SNF3x3 (docstring) and not needed by the supercell: only counted
+        run.count("snf: divisibility chain d0|d1|d2 holds" if chain else "snf: divisibility chain d0|d1|d2 does NOT hold")
         run.count("oracle-snf", section="oracle")
         if not okk:
             run.violation("SNF3x3.run", "not-a-smith-normal-form", "D,P,Q returned by SNF3x3 are not a Smith normal form of A",
@@ -520,6 +524,8 @@ def main(run):
             quiet(s.run)
             Pi = np.rint(np.linalg.inv(s.P)).astype(int)
             Qi = np.rint(np.linalg.inv(s.Q)).astype(int)
+            lines.append("framecheck %s" % " ".join(" ".join(str(int(x)) for x in np.array(M).ravel()) for M in (S, s.D, s.P, Pi, s.Q, Qi)))
+            meta.append(("framecheck", dict(S=S.tolist()), None))
             for old, sc in scs.items():
                 if len(sc) != det * len(cell):
                     continue
@@ -705,7 +711,7 @@ def main(run):
         run.count(kind, section="correspondence")
         if kind == "snf":
             tk = o.split()
-            D, P, Q = impl
+            D, P, Q, chain = impl
             if tk[0] != "ok":
                 run.broke("correspondence", "SNF3x3: model raises, implementation returns", dict(A=info.tolist()))
                 continue
@@ -714,6 +720,8 @@ def main(run):
                 run.broke("correspondence", "SNF3x3: D,P,Q differ from the model", dict(A=info.tolist(), impl=[D.tolist(), P.tolist(), Q.tolist()], model=v))
             if tk[28:31] != ["1", "1", "1"] or tk[32] != "1":
                 run.broke("correspondence", "SNF model flags finished/xok/finOk/isSNF = %s %s" % (tk[28:31], tk[32]), dict(A=info.tolist()))
+            if (tk[33] == "1") != chain:
+                run.broke("correspondence", "SNF model and implementation disagree on the divisibility chain", dict(A=info.tolist()))
         elif kind == "snf-reject":
             if (o.split()[0] == "err") != (impl is not None):
                 run.broke("correspondence", "SNF3x3 rejection differs from the model", dict(A=info.tolist(), model=o, impl=repr(impl)))
@@ -727,6 +735,11 @@ def main(run):
                 run.broke("correspondence", "isCompleteResidueSystem = false on the implementation's lattice points", info)
                 run.violation("get_supercell(is_old_style=%s)" % info["old"], "not-a-complete-residue-system",
                               "lattice points of the images of atom 0 are not a complete irredundant system of Z^3/SZ^3", info)
+        elif kind == "framecheck":
+            run.count("frame-certificates", section="correspondence")
+            if o != "1":
+                run.broke("correspondence", "frameComplete = false: the surrounding frame of the classic route misses a residue class", info)
+                run.violation("get_supercell(is_old_style=True)", "frame-incomplete", "surrounding frame does not meet every class of Z^3/SZ^3", info)
         elif kind == "stables":
             run.count("table-certificates", section="correspondence")
             if o != "1":
@@ -801,7 +814,10 @@ def main(run):
                                   + ("; all %d matrices with entries in {-1,0,1,2}, 1<=|det|<=8 (SNF3x3), det 1..8 (supercells)" % len(big) if thorough else ""))
     run.cov["partial"] = [
         "FullStatement_frame (classic route: the surrounding frame meets every residue class for EVERY integer matrix) is not a theorem; "
-        "covered by the certificate isCompleteResidueSystem evaluated in Lean on the implementation's atoms and by the tiling oracle",
+        "frame_complete_partial holds under the decidable frameComplete, evaluated in Lean for every matrix used, next to the certificate "
+        "isCompleteResidueSystem on the implementation's atoms and the tiling oracle",
+        "FullStatement_snf_result (positivity of the finished diagonal by construction) is not a theorem: decided per case by isSNF; "
+        "the textbook divisibility chain is false for this algorithm (snf_divisibility_chain_counterexample) and not needed",
         "snf termination (the code's loop is unbounded): theorems are conditional on finished/xok/finOk, which the run checks on every matrix",
     ]
     run.sample(dict(kind="supercell", request=next(l for l in lines if l and l.startswith("supercell"))[:300]))
